@@ -12,6 +12,7 @@
 //!   op     := "r:" auth ":" meth ":" mode ":" script        one request, then wait until quiescent
 //!           | "par:" auth+                                  concurrent GETs (canned complete responses)
 //!   auth   := "a" | "b"          meth := "g" (GET) | "h" (HEAD) | "c" (GET + force_close)
+//!                                        | "e" (POST, `Expect: 100-continue`, body `data`)
 //!   mode   := "f" (read body to the end) | "p" k (read until >= k body bytes were seen, then drop)
 //!   script := segs ["/" segs] "." ("k" | "c")   segs := "-" | hex ("|" hex)*
 //!             segments before "/" are written one by one; the part after "/" (leftover) is written
@@ -45,7 +46,7 @@ of head and body, whole / 2-segment / 1-byte segmentations, each followed by fur
 segment or after the exchange; (C) seeded random sequences of 2-7 requests over two authorities with early-dropped bodies \
 (drop after k bytes), keep/close, limit in {0,1,2,3}, idle/lifetime eviction; (D) concurrent batches above the limit; \
 (E) header-level framing variants (duplicate/signed/garbage content-length, TE+CL, TE identity/gzip/twice, connection \
-header variants, chunk-size overflow and syntax errors, 70 kB bodies); (F) 1xx/204/304 responses carrying Content-Length or chunked coding with the announced bytes absent, partial or complete. A case is non-trivial if at least one response head \
+header variants, chunk-size overflow and syntax errors, 70 kB bodies); (F) 1xx/204/304 responses carrying Content-Length or chunked coding with the announced bytes absent, partial or complete; (G) Expect: 100-continue requests: interim 100 Continue, then a final response cut by a close at every byte offset. A case is non-trivial if at least one response head \
 was delivered to the client; distinct = distinct (case, output) hashes";
 
 // ---------------------------------------------------------------------------------------------
@@ -64,6 +65,8 @@ enum Meth {
     Get,
     Head,
     GetClose,
+    /// POST with `Expect: 100-continue` and the 4-byte body `data`
+    Expect,
 }
 
 #[derive(Clone, Copy, Debug, PartialEq)]
@@ -128,6 +131,7 @@ fn parse_op(tok: &str) -> Op {
                 "g" => Meth::Get,
                 "h" => Meth::Head,
                 "c" => Meth::GetClose,
+                "e" => Meth::Expect,
                 _ => return Op::Bad,
             };
             let mode = if *mode == "f" {
@@ -250,13 +254,22 @@ async fn serve_conn(sh: Sh, nt: Rc<Notify>, mut s: TcpStream, cid: usize) {
     let _ = s.set_nodelay(true);
     let mut buf: Vec<u8> = Vec::new();
     let mut half_closed = false;
+    let mut skip = 0usize; // request body bytes still to come (sent by the client after `100 Continue`)
     loop {
         // next request head (or the client's close)
         let id = loop {
-            if !half_closed {
+            if skip > 0 && !buf.is_empty() {
+                let k = skip.min(buf.len());
+                buf.drain(..k);
+                skip -= k;
+            }
+            if !half_closed && skip == 0 {
                 if let Some(pos) = find(&buf, b"\r\n\r\n") {
                     let head: Vec<u8> = buf.drain(..pos + 4).collect();
-                    let line = String::from_utf8_lossy(&head);
+                    let line = String::from_utf8_lossy(&head).to_ascii_lowercase();
+                    if line.contains("expect: 100-continue") {
+                        skip = 4;
+                    }
                     let path = line.split(' ').nth(1).unwrap_or("/");
                     break path.trim_start_matches('/').parse::<usize>().unwrap_or(usize::MAX);
                 }
@@ -310,6 +323,12 @@ async fn serve_conn(sh: Sh, nt: Rc<Notify>, mut s: TcpStream, cid: usize) {
             Some(s) => s,
             None => Rc::new(Script { pre: vec![CANNED.to_vec()], ..Default::default() }),
         };
+        if skip > 0 {
+            let all: Vec<u8> = script.pre.iter().flatten().cloned().collect();
+            if !all.starts_with(b"HTTP/1.1 100 ") && !all.starts_with(b"HTTP/1.0 100 ") {
+                skip = 0; // no `100 Continue`: the client never sends the body
+            }
+        }
         for (i, seg) in script.pre.iter().enumerate() {
             if i > 0 {
                 turn(2).await;
@@ -420,12 +439,13 @@ impl Outcome {
 const T_REQ: Duration = Duration::from_secs(8);
 
 async fn one_request(client: &awc::Client, url: String, meth: Meth, mode: Mode) -> Outcome {
-    let req = match meth {
-        Meth::Get => client.get(url),
-        Meth::Head => client.head(url),
-        Meth::GetClose => client.get(url).force_close(),
+    let send = match meth {
+        Meth::Get => client.get(url).send(),
+        Meth::Head => client.head(url).send(),
+        Meth::GetClose => client.get(url).force_close().send(),
+        Meth::Expect => client.post(url).insert_header(("expect", "100-continue")).send_body("data"),
     };
-    let mut resp = match tokio::time::timeout(T_REQ, req.send()).await {
+    let mut resp = match tokio::time::timeout(T_REQ, send).await {
         Err(_) => return Outcome::SendErr("timeout".into()),
         Ok(Err(e)) => return Outcome::SendErr(send_err(&e)),
         Ok(Ok(r)) => r,
@@ -844,6 +864,17 @@ fn oracle(o: &Obs) -> Option<(String, String)> {
         let mut stream: Vec<u8> = Vec::new();
         for s in op.script.pre.iter().chain(op.script.post.iter()) {
             stream.extend_from_slice(s);
+        }
+        if op.meth == Meth::Expect {
+            // an interim `100 Continue` is not the response: the final one follows it
+            if stream.starts_with(b"HTTP/1.1 100 ") {
+                match find(&stream, b"\r\n\r\n") {
+                    Some(p) => {
+                        stream.drain(..p + 4);
+                    }
+                    None => stream.clear(),
+                }
+            }
         }
         let r = reference(&stream, op.meth == Meth::Head);
         if let Outcome::Body(_, got) = &op.outcome {
@@ -1431,6 +1462,45 @@ fn gen(ctx: &Ctx) -> Vec<String> {
                 }
             }
         }
+    }
+    // (G) `Expect: 100-continue` exchanges: interim `100 Continue`, request body, then a final
+    // response cut by a close at every byte offset (the codec decodes two heads in a row)
+    {
+        let interims: [&[u8]; 2] = [b"HTTP/1.1 100 Continue\r\n\r\n", b"HTTP/1.1 100 Continue\r\nx-a: b\r\n\r\n"];
+        let finals: Vec<Resp> = vec![
+            Resp { v11: true, status: 200, fr: Fr::Len(b"0123456789".to_vec()), conn: None, extra: vec![] },
+            Resp { v11: true, status: 200, fr: Fr::Chunked(vec![b"abc".to_vec(), b"defgh".to_vec()], false), conn: None, extra: vec![] },
+            Resp { v11: true, status: 204, fr: Fr::None, conn: None, extra: vec![] },
+            Resp { v11: false, status: 200, fr: Fr::Close(b"tail".to_vec()), conn: None, extra: vec![] },
+        ];
+        for (fi, resp) in finals.iter().enumerate() {
+            let full = resp.bytes();
+            for t in 0..=full.len() {
+                let cut = &full[..t];
+                let interim = interims[(t + fi) % 2].to_vec();
+                let complete = t == full.len() && !resp.until_close();
+                let segs: Vec<Vec<u8>> = match t % 3 {
+                    0 => vec![interim.clone(), cut.to_vec()],
+                    1 => {
+                        let mut one = interim.clone();
+                        one.extend_from_slice(cut);
+                        vec![one]
+                    }
+                    _ => {
+                        let p = rng.below(t + 1);
+                        let mut v = vec![interim.clone()];
+                        v.extend(split_at_points(cut, &[p]));
+                        v
+                    }
+                };
+                let tok = req_tok(0, 'e', "f", &script_tok(&segs, None, !complete));
+                cases.push(format!("lim=1 {} {}", tok, good_follow(0)));
+            }
+            // the final response comes at once (no interim): the body is never sent
+            cases.push(format!("lim=1 {} {}", req_tok(0, 'e', "f", &script_tok(&[full.clone()], None, true)), good_follow(0)));
+        }
+        // interim only, then close
+        cases.push(format!("lim=1 {} {}", req_tok(0, 'e', "f", &script_tok(&[interims[0].to_vec()], None, true)), good_follow(0)));
     }
     // a head that never ends: refused at MAX_BUFFER_SIZE
     {
